@@ -3,6 +3,7 @@ import AdfObdd.PreGround3
 import AdfObdd.AdfModel
 import AdfObdd.StableExact
 import AdfObdd.OpsProofs
+import AdfObdd.BioProofs
 /-! # C03 — enumerate-and-check stable semantics
 
 The code's test for a two-valued candidate `v`: restrict every condition by `v`'s false statements
@@ -127,5 +128,189 @@ example : [some false] ∉ (stableAll Store.init 1 [1]).2.map (fun v => v.map st
   have e : Gam (List.map (eval Store.init) [1]) [some false] = [some true] := by
     simp [Gam, constOf_some, eval_one]
   rw [e] at this; cases this
+
+end C03
+
+/-! ## the biodivine back-end (`adfbiodivine.rs`) and both single-formula rewriting variants -/
+namespace C03
+open Bio (BExpr)
+
+/-- the definition used throughout C03, as one predicate (`StableExact.StableI` unfolded) -/
+def Stable (D : List BoolFn) (v : I3) : Prop :=
+  TotalI v ∧ Gam D v = v ∧
+    ∀ w : I3, IsLfp (redu D v) w → ∀ i : Nat, v[i]? = some (some true) → w[i]? = some (some true)
+
+/-- `Adf::stable` of the SECOND back-end (model: `Bio.bioStable` — the two-valued iterator over
+`grounded_internal(&self.ac)`, filtered by "`grounded_internal` of the conditions restricted by the
+candidate's FALSE statements has the candidate's information values at all positions").
+
+ASSUMPTION ABOUT THE EXTERNAL LIBRARY (`biodivine_lib_bdd`, not modelled): `W : Bio.Lawful L n`,
+see `C02.biodivine_complete_exact`. For every lawful library and valid conditions the answers,
+read as interpretations, contain no duplicate and are exactly the stable models; in particular
+the answer is `[]` when there is none. -/
+theorem biodivine_stable_exact {T : Type} (L : Bio.Lib T) (n : Nat) (W : Bio.Lawful L n)
+    (ac : List T) (hv : ∀ a ∈ ac, W.Valid a) (hn : ac.length = n) :
+    let D := ac.map W.den
+    let out := (Bio.bioStable L ac).map (fun v => v.map storeIsConst)
+    out.Nodup ∧ (∀ v : I3, v ∈ out ↔ (v.length = n ∧ Stable D v)) ∧
+    ((∀ v : I3, ¬ (v.length = n ∧ Stable D v)) → Bio.bioStable L ac = []) := by
+  have h := Bio.bioStable_exact W ac hv hn
+  exact ⟨h.1, h.2, fun hnone => Bio.nil_of_none _ _ _ h.2 hnone⟩
+
+/-- `Adf::stable_bdd_representation` of the biodivine back-end (model: `Bio.bioStableRep`): the
+candidates are the `sat_valuations` of ONE diagram — the rewriting prepared at construction if
+there is one (`rw = some r`), else `stable_representation()` = `⋀ᵢ (acᵢ ↔ xᵢ)` — filtered by the
+same reduct test as `stable`.
+
+ASSUMPTION ABOUT THE EXTERNAL LIBRARY: `W : Bio.Lawful L n`; the clause used here in addition to
+C02's is `sat_spec`: `sat_valuations` yields every satisfying total valuation of the `n` declared
+variables exactly once, in any order (the theorem for an explicit candidate list with exactly
+this hypothesis: `Bio.stableFilter_of_candidates`).
+
+`Bio.GoodRewrite W ac rw`: nothing for `rw = none`; for `rw = some r`, `r` is a diagram of the
+variable set that is true at every two-valued model of the conditions. Then: no duplicate, exactly
+the stable models, `[]` when there is none. -/
+theorem biodivine_rewriting_exact {T : Type} (L : Bio.Lib T) (n : Nat) (W : Bio.Lawful L n)
+    (rw : Option T) (ac : List T) (hv : ∀ a ∈ ac, W.Valid a) (hn : ac.length = n)
+    (hg : Bio.GoodRewrite W ac rw) :
+    let D := ac.map W.den
+    let out := (Bio.bioStableRep L rw ac).map (fun v => v.map storeIsConst)
+    out.Nodup ∧ (∀ v : I3, v ∈ out ↔ (v.length = n ∧ Stable D v)) ∧
+    ((∀ v : I3, ¬ (v.length = n ∧ Stable D v)) → Bio.bioStableRep L rw ac = []) := by
+  have h := Bio.bioStableRep_exact W rw ac hv hn hg
+  exact ⟨h.1, h.2, fun hnone => Bio.nil_of_none _ _ _ h.2 hnone⟩
+
+/-- variant 1, `from_parser` + `stable_bdd_representation()`: the formula is built on demand from
+the conditions; no further hypothesis -/
+theorem biodivine_rewriting_on_demand_exact {T : Type} (L : Bio.Lib T) (n : Nat) (W : Bio.Lawful L n)
+    (ac : List T) (hv : ∀ a ∈ ac, W.Valid a) (hn : ac.length = n) :
+    let D := ac.map W.den
+    let out := (Bio.bioStableRep L none ac).map (fun v => v.map storeIsConst)
+    out.Nodup ∧ (∀ v : I3, v ∈ out ↔ (v.length = n ∧ Stable D v)) ∧
+    ((∀ v : I3, ¬ (v.length = n ∧ Stable D v)) → Bio.bioStableRep L none ac = []) :=
+  biodivine_rewriting_exact L n W none ac hv hn trivial
+
+/-- variant 2, `from_parser_with_stm_rewrite`: `n` declared statements, `order` =
+`formula_order()`, `fs` = the conditions in file order (closed: they mention declared statements
+only), the object's conditions are `Bio.acOf` (= `from_parser`), its rewriting `Bio.stmRewriting`
+(one equivalence per condition OF THE FILE). Hypothesis: NO STATEMENT HAS TWO CONDITIONS
+(`order.Nodup`) — without it the theorem is false, see `prepared_rewriting_duplicate_counterexample`.
+A statement without condition is allowed (its condition is `mk_false`, the formula does not
+constrain it, the reduct test rejects the extra candidates). -/
+theorem biodivine_rewriting_prepared_exact {T : Type} (L : Bio.Lib T) (n : Nat) (W : Bio.Lawful L n)
+    (order : List Nat) (fs : List BExpr) (hf : ∀ φ ∈ fs, φ.closed n = true) (ho : ∀ o ∈ order, o < n)
+    (hl : order.length = fs.length) (hnd : order.Nodup) :
+    let ac := Bio.acOf L n order fs
+    let D := ac.map W.den
+    let out := (Bio.bioStableRep L (some (Bio.stmRewriting L order fs)) ac).map (fun v => v.map storeIsConst)
+    out.Nodup ∧ (∀ v : I3, v ∈ out ↔ (v.length = n ∧ Stable D v)) ∧
+    ((∀ v : I3, ¬ (v.length = n ∧ Stable D v)) →
+      Bio.bioStableRep L (some (Bio.stmRewriting L order fs)) ac = []) := by
+  have ⟨a, b, _⟩ := Bio.acOf_spec W n order fs hf
+  exact biodivine_rewriting_exact L n W _ _ b a (Bio.stmRewriting_good W order fs hf ho hnd hl)
+
+/-- when every statement has EXACTLY one condition the two constructions — `stm_rewriting` over the
+parser's formulas in file order, `stable_representation()` folded over `ac` in statement order —
+denote the same Boolean function (so they have the same candidates) -/
+theorem rewritings_same_function {T : Type} (L : Bio.Lib T) (n : Nat) (W : Bio.Lawful L n)
+    (order : List Nat) (fs : List BExpr) (hf : ∀ φ ∈ fs, φ.closed n = true)
+    (h1 : Bio.ExactlyOne n order) (hl : order.length = fs.length) :
+    W.den (Bio.stmRewriting L order fs) = W.den (Bio.stableRepresentation L (Bio.acOf L n order fs)) :=
+  Bio.rewritings_same_function W n order fs (Nat.le_refl n) hf h1 hl
+
+/-- `Adf::stable_bdd_representation(&mut self, biodivine)` of the NATIVE back-end (`adf.rs`; model:
+`Bio.nativeStableRep`): candidates from the biodivine object (`stable_model_candidates`, either
+rewriting), reduct / grounding / comparison on the own store.
+
+ASSUMPTION ABOUT THE EXTERNAL LIBRARY: `W : Bio.Lawful L n` as above (only the candidate
+generation uses the library). `hsame`: the biodivine object is the one the native object was
+instantiated from — position by position the same Boolean functions. Then the loop keeps the store
+well formed, only extends it, and the answers are exactly the stable models, each once. -/
+theorem native_rewriting_exact {T : Type} (L : Bio.Lib T) (n : Nat) (W : Bio.Lawful L n)
+    (s : Store) (ac : List Nat) (hw : WF s) (hn : ac.length = n) (hvs : ∀ t ∈ ac, t < s.nodes.size)
+    (rw : Option T) (acB : List T) (hv : ∀ a ∈ acB, W.Valid a) (hnB : acB.length = n)
+    (hsame : acB.map W.den = ac.map (eval s)) (hg : Bio.GoodRewrite W acB rw) :
+    let D := ac.map (eval s)
+    let r := Bio.nativeStableRep s n ac (Bio.stableModelCandidates L rw acB)
+    let out := r.2.map (fun v => v.map storeIsConst)
+    (WF r.1 ∧ Ext s r.1) ∧ out.Nodup ∧ (∀ v : I3, v ∈ out ↔ (v.length = n ∧ Stable D v)) ∧
+    ((∀ v : I3, ¬ (v.length = n ∧ Stable D v)) → r.2 = []) := by
+  have h := Bio.nativeStableRep_exact W s ac hw hn hvs rw acB hv hnB hsame hg
+  exact ⟨h.1, h.2.1, h.2.2, fun hnone => Bio.nil_of_none _ _ _ h.2.2 hnone⟩
+
+/-! ### non-vacuity on the computable truth-table library (`Bio.ttLib`, lawful: `Bio.ttLawful`)
+
+Three statements, facts in the order `ac(c, and(a, neg(b))). ac(a, neg(b)). ac(b, neg(a)).`
+(`formula_order = [2, 0, 1]`); stable models `{a, c}` and `{b}`. -/
+def exOrder : List Nat := [2, 0, 1]
+def exFs : List BExpr := [.and (.var 0) (.not (.var 1)), .not (.var 1), .not (.var 0)]
+
+example : Bio.acOf (Bio.ttLib 3) 3 exOrder exFs = [51, 85, 34] := by decide
+
+example : (Bio.bioStable (Bio.ttLib 3) [51, 85, 34]).map Bio.toI3 =
+    [[some false, some true, some false], [some true, some false, some true]] := by decide
+example : (Bio.bioStableRep (Bio.ttLib 3) none [51, 85, 34]).map Bio.toI3 =
+    [[some false, some true, some false], [some true, some false, some true]] := by decide
+example : (Bio.bioStableRep (Bio.ttLib 3) (some (Bio.stmRewriting (Bio.ttLib 3) exOrder exFs))
+      (Bio.acOf (Bio.ttLib 3) 3 exOrder exFs)).map Bio.toI3 =
+    [[some false, some true, some false], [some true, some false, some true]] := by decide
+
+theorem exValid : ∀ a ∈ [51, 85, 34], (Bio.ttLawful 3).Valid a := by
+  intro a ha
+  apply Bio.ttValid_of_lt
+  have : a = 51 ∨ a = 85 ∨ a = 34 := by simpa using ha
+  rcases this with h | h | h <;> subst h <;> decide
+
+/-- the hypotheses of `biodivine_stable_exact` hold for it and the theorem turns the computed
+membership into the definition … -/
+example : Stable ([51, 85, 34].map (Bio.ttDen 3)) [some true, some false, some true] :=
+  (((biodivine_stable_exact (Bio.ttLib 3) 3 (Bio.ttLawful 3) [51, 85, 34] exValid rfl).2.1 _).mp
+    (by decide)).2
+/-- … and back: a non-answer is not stable -/
+example : ¬ Stable ([51, 85, 34].map (Bio.ttDen 3)) [some true, some false, some false] := by
+  intro h
+  have := ((biodivine_stable_exact (Bio.ttLib 3) 3 (Bio.ttLawful 3) [51, 85, 34] exValid rfl).2.1
+    [some true, some false, some false]).mpr ⟨rfl, h⟩
+  revert this
+  decide
+
+/-- the same through the prepared rewriting: its hypotheses hold for the written example -/
+example : Stable ((Bio.acOf (Bio.ttLib 3) 3 exOrder exFs).map (Bio.ttDen 3)) [some false, some true, some false] :=
+  (((biodivine_rewriting_prepared_exact (Bio.ttLib 3) 3 (Bio.ttLawful 3) exOrder exFs (by decide)
+    (by decide) rfl (by decide)).2.1 _).mp (by decide)).2
+
+/-- `Bio.ExactlyOne` is satisfiable: the two rewritings of the example are the same function -/
+example : (Bio.ttLawful 3).den (Bio.stmRewriting (Bio.ttLib 3) exOrder exFs) =
+    (Bio.ttLawful 3).den (Bio.stableRepresentation (Bio.ttLib 3) (Bio.acOf (Bio.ttLib 3) 3 exOrder exFs)) :=
+  rewritings_same_function (Bio.ttLib 3) 3 (Bio.ttLawful 3) exOrder exFs (by decide)
+    ⟨by decide, by decide, by decide⟩ rfl
+
+/-- the native variant on the initial store: one statement with condition ⊤, candidates from the
+truth-table library; hypotheses satisfiable, the answer is `T` -/
+example : (Bio.nativeStableRep Store.init 1 [1] (Bio.stableModelCandidates (Bio.ttLib 1) none [3])).2 = [[1]] := by
+  decide
+example : Stable ([1].map (eval Store.init)) [some true] := by
+  have hsame : [3].map (Bio.ttLawful 1).den = [1].map (eval Store.init) := by
+    have e : (Bio.ttLawful 1).den 3 = (fun _ => true) :=
+      funext ((Bio.tt_isTrue 1 3 (Bio.ttValid_of_lt (by decide))).mp (by decide))
+    have e2 : eval Store.init 1 = (fun _ => true) := funext (fun σ => eval_one _ σ)
+    simp [e, e2]
+  have h := native_rewriting_exact (Bio.ttLib 1) 1 (Bio.ttLawful 1) Store.init [1] WF_init rfl
+    (by simp [Store.init]) none [3]
+    (fun a ha => Bio.ttValid_of_lt (by have : a = 3 := by simpa using ha
+                                       subst this; decide)) rfl hsame trivial
+  exact ((h.2.2.1 [some true]).mp (by decide)).2
+
+/-- COUNTEREXAMPLE to the prepared variant without `order.Nodup`: the file
+`s(a). ac(a, c(f)). ac(a, c(v)).` gives statement `a` two conditions. `from_parser` keeps the last
+one (`⊤`: the only stable model makes `a` true, `stable` finds it), `stm_rewriting` conjoins BOTH
+equivalences (`(a ↔ ⊥) ∧ (a ↔ ⊤)`, unsatisfiable): no candidate, the stable model is lost. -/
+theorem prepared_rewriting_duplicate_counterexample :
+    let L := Bio.ttLib 1
+    let ac := Bio.acOf L 1 [0, 0] [.const false, .const true]
+    (Bio.bioStable L ac).map Bio.toI3 = [[some true]] ∧
+    (Bio.bioStableRep L none ac).map Bio.toI3 = [[some true]] ∧
+    Bio.bioStableRep L (some (Bio.stmRewriting L [0, 0] [.const false, .const true])) ac = [] := by
+  decide
 
 end C03
